@@ -6,7 +6,9 @@
        _run_onset_checks
    Times are exact (N, in units of 1/8 s): the 1e-9 tolerance of
    _indexed_dict_from_onsets, float parsing, NaN onsets and Delay values that have
-   no conversion to seconds (the group then stays in its row) are not modelled.
+   no conversion to seconds (the group then stays in its row) are not modelled;
+   neither are infinite onsets / Delay values whose sum is NaN (such a group stays in its
+   row since fix commit 3db4aba).
    Models only -- proofs live in Proofs/TimelineProofs.v. *)
 From Coq Require Import List NArith Arith Bool.
 From HV Require Import Base.Res Base.Str Model.Onset.
